@@ -1122,3 +1122,122 @@ E('C05', 'list-copy', SIM, """        for blk in self.getblocks(block.SBlock):
                 continue
             raise EdzedCircuitError(f"{blk}: not initialized")""")
 E('C05', 'isready-test', SIM, "        if (error := self._error) is not None or self._simtask.done():", "        error = self._error\n        if not self.is_ready() or self._simtask.done():")
+
+# ----------------------------------------------------------------------------- C06
+V('C06', 'f10-reverted', SIM, """            await asyncio.sleep(0)
+            self.log_debug("Initializing sequential blocks")
+            self._init_sblocks_sync_1()
+            await self._init_sblocks_async()
+            self._init_sblocks_sync_2()
+            start_ok = True
+""", """            await asyncio.sleep(0)
+            start_ok = True
+            self.log_debug("Initializing sequential blocks")
+            self._init_sblocks_sync_1()
+            await self._init_sblocks_async()
+            self._init_sblocks_sync_2()
+""", 'R06.4')
+V('C06', 'save-in-finally', ADD, """        try:
+            retval = super().event(etype, **data)
+        except Exception:
+            if self.persistent and not self.circuit.is_ready():
+                # The internal state data may be corrupted, because it looks like
+                # event() decided to stop the simulation in reaction to this exception.
+                # (Never mind if it wasn't this exception but some previous one.)
+                self.log_warning("Disabling persistent state due to an error")
+                self.persistent = False
+            raise
+        if self.persistent and self.sync_state:
+            self.save_persistent_state()
+        return retval""", """        try:
+            retval = super().event(etype, **data)
+        finally:
+            if self.persistent and self.sync_state:
+                self.save_persistent_state()
+        return retval""", 'R06.1')
+V('C06', 'save-before-handler', ADD, """        try:
+            retval = super().event(etype, **data)
+        except Exception:""", """        if self.persistent and self.sync_state:
+            self.save_persistent_state()
+        try:
+            retval = super().event(etype, **data)
+        except Exception:""", 'R06.1')
+V('C06', 'save-ignores-syncstate', ADD, "        if self.persistent and self.sync_state:\n            self.save_persistent_state()\n        return retval", "        if self.persistent:\n            self.save_persistent_state()\n        return retval", 'R06.1')
+V('C06', 'error-swallowed', ADD, """                self.log_warning("Disabling persistent state due to an error")
+                self.persistent = False
+            raise
+""", """                self.log_warning("Disabling persistent state due to an error")
+                self.persistent = False
+                return None
+            raise
+""", 'R06.1')
+V('C06', 'persistence-kept-after-error', ADD, """                self.log_warning("Disabling persistent state due to an error")
+                self.persistent = False
+""", """                self.log_warning("Disabling persistent state due to an error")
+""", 'R06.1')
+V('C06', 'stop-then-save', SIM, """            if start_ok and self.persistent_dict is not None:
+                for blk in started_blocks.intersection(self.getblocks(addons.AddonPersistence)):
+                    blk.save_persistent_state()
+                self.persistent_dict['edzed-stop-time'] = time.time()
+            await self._stop_sblocks(started_blocks)
+""", """            await self._stop_sblocks(started_blocks)
+            if start_ok and self.persistent_dict is not None:
+                for blk in started_blocks.intersection(self.getblocks(addons.AddonPersistence)):
+                    blk.save_persistent_state()
+                self.persistent_dict['edzed-stop-time'] = time.time()
+""", 'R06.3')
+V('C06', 'save-unconditional', SIM, "            if start_ok and self.persistent_dict is not None:\n                for blk in started_blocks", "            if self.persistent_dict is not None:\n                for blk in started_blocks", 'R06')
+V('C06', 'raw-loop-time', FSM, "            exp_timestamp = looptimes.loop_to_unixtime(timer.when())", "            exp_timestamp = timer.when()", 'R06.6')
+V('C06', 'restore-loop-base', FSM, "            remaining = exp_timestamp - time.time()", "            remaining = exp_timestamp - asyncio.get_running_loop().time()", 'R06')
+V('C06', 'tuple-extended-one-side', FSM, "        return (self._state, exp_timestamp, self.sdata)", "        return (self._state, exp_timestamp, self.sdata, type(self).__name__)", 'R06.5')
+V('C06', 'positions-swapped', FSM, "        return (self._state, exp_timestamp, self.sdata)", "        return (self._state, self.sdata, exp_timestamp)", 'R06.5')
+V('C06', 'reconfig-kw-renamed', TD, """            weekdays: Optional[str|Sequence[int]] = None,
+            **_data
+            ) -> None:
+        \"\"\"Reconfigure the block.\"\"\"""", """            wdays: Optional[str|Sequence[int]] = None,
+            **_data
+            ) -> None:
+        \"\"\"Reconfigure the block.\"\"\"
+        weekdays = wdays""", 'R06.5')
+V('C06', 'expiry-inverted', ADD, "            if ts is not None and ts + exp < time.time():", "            if ts is not None and ts + exp > time.time():", 'R06')
+V('C06', 'exp-zero-restores', ADD, """            if exp <= 0.0:
+                return
+            ts = self.circuit.persistent_ts""", """            ts = self.circuit.persistent_ts""", 'R06.7')
+V('C06', 'restore-reruns-enter', FSM, """        self._state = state
+        self.sdata = sdata
+        self.log_debug("state: <UNDEF> -> %s", state)""", """        self._state = state
+        self.sdata = sdata
+        self._run_cb('enter', state)
+        self.log_debug("state: <UNDEF> -> %s", state)""", 'R06.7')
+V('C06', 'expired-timer-installed', FSM, """            if remaining <= 0.0:
+                self.log_debug("restore state: ignoring expired state")
+                return
+""", """            if remaining <= 0.0:
+                self.log_debug("restore state: ignoring expired state")
+                remaining = 0.001
+""", 'R06.7')
+V('C06', 'purge-reserved', SIM, """            if key.startswith('edzed-'):
+                continue
+            _logger.info("Removing unused persistent state for '%s'", key)""", """            _logger.info("Removing unused persistent state for '%s'", key)""", 'R06.8')
+V('C06', 'ts-key-mismatch', SIM, "                self.persistent_dict['edzed-stop-time'] = time.time()", "                self.persistent_dict['edzed-stop-ts'] = time.time()", 'R06.8')
+V('C06', 'foreign-writer', S1, "        output = value if self._mod is None else value % self._mod\n        self.set_output(output)\n", "        output = value if self._mod is None else value % self._mod\n        self.set_output(output)\n        if self.circuit.persistent_dict is not None:\n            self.circuit.persistent_dict[self.key] = output\n", 'R06.2')
+V('C06', 'save-before-check', SIM, """        for blk in self.getblocks(block.SBlock):
+            if not blk.is_initialized():
+                raise EdzedCircuitError(f"{blk}: not initialized")
+        # save the internal states after initialization
+        if self.persistent_dict is not None:
+            for blk in self.getblocks(addons.AddonPersistence):
+                blk.save_persistent_state()
+""", """        # save the internal states after initialization
+        if self.persistent_dict is not None:
+            for blk in self.getblocks(addons.AddonPersistence):
+                blk.save_persistent_state()
+        for blk in self.getblocks(block.SBlock):
+            if not blk.is_initialized():
+                raise EdzedCircuitError(f"{blk}: not initialized")
+""", 'R06.3')
+V('C06', 'stale-entry-kept', ADD, "            persistent_dict.pop(self.key, None)  # remove stale data\n", "", 'R06.2')
+E('C06', 'early-return-style', ADD, "        if self.persistent and self.sync_state:\n            self.save_persistent_state()\n        return retval", "        if not (self.persistent and self.sync_state):\n            return retval\n        self.save_persistent_state()\n        return retval")
+EM('C06', 'flag-renamed', [(SIM, "        start_ok = False\n", "        init_ok = False\n"),
+                            (SIM, "            start_ok = True\n", "            init_ok = True\n"),
+                            (SIM, "            if start_ok and self.persistent_dict is not None:", "            if init_ok and self.persistent_dict is not None:")])
